@@ -206,8 +206,14 @@ Proof. intros d H. unfold inbound_normal. rewrite H. reflexivity. Qed.
 Lemma step_nevershared : forall fl l o, f_never fl = true ->
   count_inbound_normal l <= 1 -> count_inbound_normal (step fl l o) <= 1.
 Proof.
-  intros fl l o Hnever Hc. destruct o as [rev|i|i shared|i]; cbn [step].
+  intros fl l o Hnever Hc. destruct o as [rev|rev|rev|i|i|i shared|i]; cbn [step].
   - unfold count_inbound_normal in *. rewrite filter_app, app_length. cbn. lia.
+  - unfold count_inbound_normal in *. rewrite filter_app, app_length. cbn. lia.
+  - unfold count_inbound_normal in *. rewrite filter_app, app_length. cbn. lia.
+  - eapply Nat.le_trans; [|exact Hc]. apply count_mono. apply Forall2_update; [auto|].
+    intros x _. destruct (k_open x && match k_phase x with PHold => true | _ => false end) eqn:E; [|auto].
+    destruct (k_gone x); unfold inbound_normal, live_normal, is_normal; cbn; [discriminate|].
+    rewrite andb_false_r. discriminate.
   - eapply Nat.le_trans; [|exact Hc]. apply count_mono. apply Forall2_update; [auto|].
     intros x _. destruct (k_open x && match k_phase x with PSec => true | _ => false end); [|auto].
     unfold inbound_normal, live_normal, is_normal. cbn. rewrite andb_false_r. discriminate.
@@ -239,7 +245,10 @@ Proof.
       eapply Nat.le_trans; [|exact Hc]. apply count_mono. apply Forall2_update; [auto|].
       intros x Hx. rewrite Hn in Hx. injection Hx as <-. unfold inbound_normal. cbn. rewrite Hex, andb_false_r. discriminate.
   - eapply Nat.le_trans; [|exact Hc]. apply count_mono. apply Forall2_update; [auto|].
-    intros x _. cbn. discriminate.
+    intros x _. destruct (k_open x && match k_phase x with PHold => true | _ => false end) eqn:E.
+    + apply andb_true_iff in E. destruct E as [_ E]. unfold inbound_normal, live_normal, is_normal. cbn.
+      destruct (k_phase x); try discriminate E. cbn. discriminate.
+    + cbn. discriminate.
 Qed.
 
 (* C14_nevershared_at_most_one: for every arrival order, every shared flag, every interleaving
@@ -265,5 +274,5 @@ Example nevershared_nonvacuous :
   count_inbound_normal (run (mkFlags false false false) [] [OConn false; OAdv 0; OInit 0 true; OConn false; OAdv 1; OInit 1 true]) = 2.
 Proof. vm_compute. repeat split. Qed.
 
-Example ready_nonvacuous : ready (run (mkFlags false false false) [] [OConn false; OAdv 0]) 0 (mkClient false PInit true).
+Example ready_nonvacuous : ready (run (mkFlags false false false) [] [OConn false; OAdv 0]) 0 (mkClient false PInit true false).
 Proof. vm_compute. repeat split. Qed.
